@@ -35,7 +35,6 @@ func (ser *MultiEpoch) getGsfaReadersInEpochDescendingOrder() ([]*gsfa.GsfaReade
 	epochNums := make([]uint64, 0, len(epochs))
 	for _, epoch := range epochs {
 		if epoch.gsfaReader != nil {
-			epoch.gsfaReader.SetEpoch(epoch.Epoch())
 			gsfaReaders = append(gsfaReaders, epoch.gsfaReader)
 			epochNums = append(epochNums, epoch.Epoch())
 		}
@@ -67,7 +66,6 @@ func (ser *MultiEpoch) getGsfaReadersInEpochDescendingOrderForSlotRange(ctx cont
 	epochNums := make([]uint64, 0, len(epochs))
 	for _, epoch := range epochs {
 		if epoch.gsfaReader != nil {
-			epoch.gsfaReader.SetEpoch(epoch.Epoch())
 			gsfaReaders = append(gsfaReaders, epoch.gsfaReader)
 			epochNums = append(epochNums, epoch.Epoch())
 		}
